@@ -7,6 +7,7 @@ from fractions import Fraction
 import numpy as np
 
 from common import close, frac, qtok, run_driver_parallel, tokq
+import shapleylib
 
 RULE = ("cases = IncompleteCooperativeGame objects on n = 2..8 players whose lower/upper columns are written directly "
         "(set_lower_bound / set_upper_bound per coalition; grand coalition revealed with lower = upper), value classes "
@@ -294,6 +295,23 @@ def run(ctx, proof):
         ctx.sample({"n": n, "shape": c["shape"], "param": c["param"], "class": c["kind"],
                     "lower": [float(x) for x in c["l"]][:16], "upper": [float(x) for x in c["u"]][:16],
                     "exploitability": ex[1], "l1": l1, "l2": l2, "linf": linf}, limit=5)
+    # in-Coq shard: the same cases evaluated by vm_compute on the Gallina model; must equal the extracted model's output
+    shard = [(c, out) for c, out in zip(cases, outs) if c["n"] <= 5 and c["shape"] != "grand-unknown"]
+    rng.shuffle(shard)
+    shard = shard[: (30 if ctx.quick else 200)]
+    exprs = []
+    for c, _ in shard:
+        lo, up = "(sh_game_of_list %s)" % shapleylib.qlist(c["l"]), "(sh_game_of_list %s)" % shapleylib.qlist(c["u"])
+        w = f"(nm_width {lo} {up})"
+        exprs.append(f"[ex_exploit {c['n']} {lo} {up}; ex_wgap {c['n']} {w}; nm_l1 {c['n']} {w}; "
+                     f"nm_linf {c['n']} {w}; nm_l2sq {c['n']} {w}]")
+    coq_vals = shapleylib.eval_in_coq(ctx, "c05", exprs)
+    for (c, out), cv in zip(shard, coq_vals):
+        m = parse_model(out)
+        if cv != [m[0][1], m[1], m[2], m[3], m[4]]:
+            mism.append((c, f"extracted model {[m[0][1], m[1], m[2], m[3], m[4]]} != vm_compute inside Coq {cv}"))
+    ctx.coverage["in_coq_vm_compute_shard"] = len(shard)
+
     report(ctx, mism)
     ctx.coverage["exhaustive"] = False
     ctx.coverage["every_size_widened_alone_for_n"] = list(range(2, 9))
